@@ -52,6 +52,7 @@ type opDesc struct {
 	writer  int
 	proxy   bool
 	bounded bool // Join with a size bound far above the merged size (must behave like the unbounded merge)
+	trunc   int  // > 0: Join with this (small) size bound, which may really truncate the log
 	failAdd bool // the block write of this operation fails (disk error)
 }
 
@@ -67,12 +68,15 @@ type opRec struct {
 	flag     bool
 	n        int
 	task     int
+	ent      iface.IPFSLogEntry // append: the entry returned (registered by the harness after the run)
+	size     int                // join: the size bound used (-1: none)
 }
 
 type st struct {
 	stamp int
 	set   map[string]bool
 	op    *opRec
+	trunc bool // the state a size-bounded Join leaves after cutting
 }
 
 type statePoint struct {
@@ -80,6 +84,7 @@ type statePoint struct {
 	stamp int
 	set   map[string]bool
 	op    *opRec
+	trunc bool
 }
 
 type e1World struct {
@@ -105,7 +110,7 @@ var taskCtxs map[*task]*taskCtx // written before the run, entries touched only 
 
 //go:norace
 func e1SnapHook(site string) {
-	if site != "Append:indexed" && site != "Join:indexed" {
+	if site != "Append:indexed" && site != "Join:indexed" && site != "Join:truncated" {
 		return
 	}
 	t := curTask()
@@ -122,7 +127,7 @@ func e1SnapHook(site string) {
 	for _, k := range l.Entries.Keys() {
 		set[k] = true
 	}
-	tc.points = append(tc.points, statePoint{log: tc.curLog, stamp: S.now(), set: set, op: tc.cur})
+	tc.points = append(tc.points, statePoint{log: tc.curLog, stamp: S.now(), set: set, op: tc.cur, trunc: site == "Join:truncated"})
 }
 
 var curE1World *e1World
@@ -206,6 +211,7 @@ func (w *e1World) exec(t *task, tc *taskCtx, d opDesc) {
 		e, err := l.Append(w.ctx, d.payload, &ipfslog.AppendOptions{PointerCount: d.pc})
 		rec.err = err
 		if err == nil {
+			rec.ent = e
 			rec.hash = e.GetHash().String()
 			for _, c := range e.GetNext() {
 				rec.next = append(rec.next, c.String())
@@ -221,6 +227,10 @@ func (w *e1World) exec(t *task, tc *taskCtx, d opDesc) {
 		if d.bounded {
 			size = 100000
 		}
+		if d.trunc > 0 {
+			size = d.trunc
+		}
+		rec.size = size
 		_, rec.err = l.Join(src, size)
 	case kValues:
 		rec.seq = hashSeq(l.Values())
@@ -285,6 +295,7 @@ type e1Config struct {
 	ntasks  int
 	tasks   [][]opDesc
 	preJoin bool
+	trunc   bool // some Join of the scenario has a small size bound: logs need not stay causally closed
 }
 
 func genE1(r *Run, prop string) (*e1World, *e1Config) {
@@ -295,7 +306,7 @@ func genE1(r *Run, prop string) (*e1World, *e1Config) {
 	ws := E1Writers()
 	sameWriter := r.Choose("same-writer", 4) == 0
 	for i := 0; i < cfg.nlogs; i++ {
-		o := &ipfslog.LogOptions{ID: "L", AccessController: e1Controller{}}
+		o := &ipfslog.LogOptions{ID: "L", AccessController: e1Controller{}, Concurrency: uint([]int{0, 0, 1, 2}[r.Choose("log-concurrency", 4)])}
 		if w.byHash {
 			o.SortFn = sortByHash
 		}
@@ -333,6 +344,8 @@ func genE1(r *Run, prop string) (*e1World, *e1Config) {
 			known = append(known, e.GetHash())
 		}
 	}
+	// C13 (in a third of its scenarios) and the concurrent sub-batches of C15/C16: merges with small size bounds
+	truncating := prop == "C15" || prop == "C16" || (prop == "C13" && r.Choose("with-truncation", 3) == 0)
 	cfg.ntasks = 2 + r.Choose("ntasks", 3)
 	maxOps := 4
 	if Tier == "thorough" {
@@ -359,6 +372,10 @@ func genE1(r *Run, prop string) (*e1World, *e1Config) {
 					d.kind = kJoinBad
 				case x >= 25 && prop == "C03":
 					d.kind = kValues // the property is about this read
+				case x >= 24 && prop == "C15":
+					d.kind = kIterator
+				case x >= 18 && x < 22 && prop == "C16":
+					d.kind = kJoin
 				default:
 					d.kind = kValues + (x-18)%(kJoinBad-kValues)
 				}
@@ -366,9 +383,11 @@ func genE1(r *Run, prop string) (*e1World, *e1Config) {
 					d.src = 1 + r.Choose("join-src", cfg.nlogs-1)
 				}
 			} else {
-				x := r.Choose("kind14", 20)
+				x := r.Choose("kind14", 22)
 				d.target = r.Choose("target", cfg.nlogs)
 				switch {
+				case x >= 20:
+					d.kind = kJoinBad // a merge that validation refuses is a merge too: it must come back
 				case x < 7:
 					d.kind = kAppend
 				case x < 15:
@@ -386,6 +405,10 @@ func genE1(r *Run, prop string) (*e1World, *e1Config) {
 			}
 			d.proxy = r.Choose("proxy", 4) != 0
 			d.bounded = r.Choose("bounded", 4) == 0
+			if truncating && d.kind == kJoin && r.Choose("truncate", 2) == 0 {
+				d.trunc = 1 + r.Choose("trunc-size", 5)
+				cfg.trunc = true
+			}
 			d.failAdd = (d.kind == kAppend || d.kind == kToMultihash) && r.Choose("fail-add", 6) == 0
 			d.pc = 1 << uint(r.Choose("pc", 4))
 			d.writer = r.Choose("writer", len(ws))
@@ -470,6 +493,12 @@ func logLock(l *ipfslog.IPFSLog) *sync.RWMutex {
 func (w *e1World) evaluate(s *sched, cfg *e1Config) {
 	r := w.r
 	prop := cfg.prop
+	for _, t := range s.tasks {
+		if t.stuck {
+			// that task's goroutine was abandoned mid-operation: nothing it wrote may be read from here
+			r.Violate(prop+":deadlock", "every task is blocked: %s", s.deadMsg)
+		}
+	}
 	var all []*opRec
 	var points []statePoint
 	for _, t := range s.tasks {
@@ -481,12 +510,24 @@ func (w *e1World) evaluate(s *sched, cfg *e1Config) {
 	sort.Slice(all, func(i, j int) bool { return all[i].inv < all[j].inv })
 	sort.Slice(points, func(i, j int) bool { return points[i].stamp < points[j].stamp })
 	for _, o := range all {
-		r.Logf("op T%d %s(%s) [%d,%d] err=%v", o.task, kindNames[o.d.kind], w.names[o.d.target], o.inv, o.ret, o.err != nil)
+		extra := ""
+		if o.d.kind == kJoin {
+			extra = fmt.Sprintf(" src=%s size=%d", w.names[o.d.src], o.size)
+		} else if o.d.kind == kAppend {
+			extra = fmt.Sprintf(" pc=%d", o.d.pc)
+		}
+		r.Logf("op T%d %s(%s) [%d,%d] err=%v%s", o.task, kindNames[o.d.kind], w.names[o.d.target], o.inv, o.ret, o.err != nil, extra)
 	}
 	if s.deadlock {
 		r.Violate(prop+":deadlock", "every task is blocked: %s", s.deadMsg)
 	}
-	// registry: every entry any log holds at the end
+	// registry: every entry an Append returned (a size-bounded merge may have cut it away again) and
+	// every entry any log holds at the end
+	for _, o := range all {
+		if o.ent != nil {
+			w.regEntry(o.ent)
+		}
+	}
 	for _, l := range w.logs {
 		for _, e := range l.GetEntries().Slice() {
 			w.regEntry(e)
@@ -495,10 +536,10 @@ func (w *e1World) evaluate(s *sched, cfg *e1Config) {
 	// per-log state sequences (exact: recorded inside the mutators' critical sections)
 	seqs := make([][]st, len(w.logs))
 	for i := range w.logs {
-		seqs[i] = []st{{0, w.init[i], nil}}
+		seqs[i] = []st{{0, w.init[i], nil, false}}
 	}
 	for _, p := range points {
-		seqs[p.log] = append(seqs[p.log], st{p.stamp, p.set, p.op})
+		seqs[p.log] = append(seqs[p.log], st{p.stamp, p.set, p.op, p.trunc})
 	}
 	// candidates: states of log i that held at some instant of [from,to]
 	window := func(i, from, to int) []map[string]bool {
@@ -536,6 +577,9 @@ func (w *e1World) evaluate(s *sched, cfg *e1Config) {
 			r.Violate(prop+":heads", "%s ends with heads %v, its unreferenced entries are %v", w.names[i], w.names_(heads), w.names_(mh))
 		}
 		for h := range final {
+			if cfg.trunc {
+				break // size-bounded merges legitimately cut predecessors away
+			}
 			for _, n := range w.reg[h].Next {
 				if !final[n] {
 					r.Violate(prop+":causal-closure", "%s holds %s without its predecessor %s", w.names[i], w.name(h), w.name(n))
@@ -584,6 +628,10 @@ func (w *e1World) evaluate(s *sched, cfg *e1Config) {
 		sq := seqs[i]
 		for k := 1; k < len(sq); k++ {
 			prev, cur, o := sq[k-1].set, sq[k].set, sq[k].op
+			if sq[k].trunc {
+				w.checkTruncation(prop, i, prev, cur, o)
+				continue
+			}
 			if d := diff(sortedKeys(prev), sortedKeys(cur)); len(d) > 0 {
 				r.Violate(prop+":entries-vanished", "%s held %v before a %s and no longer after it", w.names[i], w.names_(d), kindNames[o.d.kind])
 			}
@@ -611,7 +659,13 @@ func (w *e1World) evaluate(s *sched, cfg *e1Config) {
 				ok := false
 				for _, c := range cands {
 					u := copySet(prev)
-					union(u, c)
+					if cfg.trunc {
+						// logs that were cut are not causally closed: a merge takes what it reaches from the
+						// source's heads before it meets an entry the log already holds
+						union(u, w.reachedBefore(c, prev))
+					} else {
+						union(u, c)
+					}
 					if setEq(u, cur) {
 						ok = true
 						break
@@ -664,11 +718,14 @@ func (w *e1World) evaluate(s *sched, cfg *e1Config) {
 		}
 		final := hashSet(w.logs[i].GetEntries())
 		for _, a := range aps {
-			if !final[a.hash] {
+			if !final[a.hash] && !cfg.trunc {
 				r.Violate(prop+":append-lost", "entry %s returned by Append is not in %s at the end", w.name(a.hash), w.names[i])
 			}
 		}
 		for _, a := range aps {
+			if cfg.trunc {
+				break // a cut may remove an earlier append from the log before the next one: no chain is implied
+			}
 			pa := w.past(a.hash)
 			for _, b := range aps {
 				if a == b {
@@ -783,12 +840,76 @@ func (w *e1World) evaluate(s *sched, cfg *e1Config) {
 			}
 		}
 	}
-	if prop != "C14" {
+	if prop != "C14" && !cfg.trunc {
 		w.porcupineCheck(all, seqs0(seqs), cfg)
 	}
 }
 
 func seqs0(x interface{}) interface{} { return x }
+
+// reachedBefore: the entries of src reachable from src's heads along predecessors inside src, not
+// walking through (or taking) entries that known already holds.
+func (w *e1World) reachedBefore(src, known map[string]bool) map[string]bool {
+	out := map[string]bool{}
+	stack := w.headsOf(src)
+	for len(stack) > 0 {
+		h := stack[len(stack)-1]
+		stack = stack[:len(stack)-1]
+		if out[h] || known[h] || !src[h] {
+			continue
+		}
+		out[h] = true
+		if e, ok := w.reg[h]; ok {
+			stack = append(stack, e.Next...)
+		}
+	}
+	return out
+}
+
+// checkTruncation: the cut of a size-bounded Join, taken in the same critical section as its merge: the log
+// keeps exactly the last min(n, total) entries of the linearisation of what it held after merging.
+func (w *e1World) checkTruncation(prop string, i int, prev, cur map[string]bool, o *opRec) {
+	r := w.r
+	r.Probe("concurrent-truncating-merge")
+	for h := range cur {
+		if !prev[h] {
+			r.Violate(prop+":truncation", "the cut of %s.Join(size %d) left %s, which the log did not hold after merging", w.names[i], o.size, w.name(h))
+		}
+	}
+	k := o.size
+	if k > len(prev) {
+		k = len(prev)
+	}
+	if len(cur) != k {
+		r.Violate(prop+":truncation", "%s.Join(size %d) on a merged log of %d entries %v left %d %v, want %d", w.names[i], o.size, len(prev), w.names_(sortedKeys(prev)), len(cur), w.names_(sortedKeys(cur)), k)
+	}
+	xs := make([]*MEntry, 0, len(prev))
+	for h := range prev {
+		if w.reg[h] == nil {
+			return
+		}
+		xs = append(xs, w.reg[h])
+	}
+	sort.Slice(xs, func(a, b int) bool {
+		if xs[a].Time != xs[b].Time {
+			return xs[a].Time < xs[b].Time
+		}
+		if xs[a].ClockID != xs[b].ClockID {
+			return xs[a].ClockID < xs[b].ClockID
+		}
+		return xs[a].Hash < xs[b].Hash
+	})
+	for j := 1; j < len(xs); j++ {
+		if !w.byHash && xs[j].Time == xs[j-1].Time && xs[j].ClockID == xs[j-1].ClockID {
+			return // comparator tie: which entry sits at the cut is not determined
+		}
+	}
+	for _, x := range xs[len(xs)-k:] {
+		if !cur[x.Hash] {
+			r.Violate(prop+":truncation", "%s.Join(size %d) dropped %s, one of the last %d entries of the merged log's linearisation", w.names[i], o.size, w.name(x.Hash), k)
+		}
+	}
+}
 
 var _ = entry.NewOrderedMap
 
